@@ -6,7 +6,7 @@ git -C /repo worktree add --detach $WT HEAD >/dev/null 2>&1
 cd $WT && git apply /verif/fixes/C31-env-quoting.patch || exit 9
 sed "s#WT='/tmp/wt_C31m'#WT='$WT'#" /verif/chk.scratch/c31/mut.py > /verif/chk.scratch/c31/mut_$NAME.py
 /venv/bin/python /verif/chk.scratch/c31/mut_$NAME.py $NAME > /verif/chk.scratch/c31/mut_$NAME.log 2>&1 || exit 8
-cd /verif && VERIF_SEED=$SEED VERIF_REPO=$WT ./check C31 >> /verif/chk.scratch/c31/mut_$NAME.log 2>&1
+cd /verif && VERIF_C31_NO_ESCALATE=1 VERIF_SEED=$SEED VERIF_REPO=$WT ./check C31 >> /verif/chk.scratch/c31/mut_$NAME.log 2>&1
 echo "exit=$?" >> /verif/chk.scratch/c31/mut_$NAME.log
 git -C /repo worktree remove --force $WT
 rm -f /verif/chk.scratch/c31/mut_$NAME.py
